@@ -5,7 +5,7 @@
 EXTENDS CommentsUniverse, Json, FP
 CONSTANT ObsFile
 Obs == ndJsonDeserialize(ObsFile)
-D(r) == [kind |-> r.kind, attach |-> r.attach, group |-> r.group, mgroup |-> r.mgroup]
+D(r) == [kind |-> r.kind, attach |-> r.attach, group |-> r.group, mgroup |-> r.mgroup, mattach |-> r.mattach]
 Cause(r) == r.kind \o "/" \o (IF IsVars(D(r)) THEN "variables-marker" ELSE "converter-marker")
 Finger(r) ==
   LET d == D(r) e == Expect(d) IN
